@@ -411,6 +411,17 @@ class C12(Prop):
           d = G.C(1, [[copy.deepcopy(a)], []], loc=['top'])
           for spec in (a, b, c, d):
             yield self.make_case(copy.deepcopy(spec), rng, n_members=3 if tier == 'quick' else 8, n_chains=2)
+    # a NAMED multi-choice reached through several sub-choices of an outer (non-distinct) multi-choice
+    for rep in range(1 if tier == 'quick' else 4):
+      for k in (2, 3):
+        inner = G.C(2, [[], [], []], rng.chance(0.5), False, name='m', loc=['in'])
+        outer = G.C(k, [[copy.deepcopy(inner)], []], False, rng.chance(0.5), loc=['out'])
+        twice = G.root_of([[0, G.kids_l([G.ref_member(inner, rng)])] for _ in range(k)])
+        for spec in (outer, G.S([copy.deepcopy(outer), G.C(1, [[], []], name='z', loc=['z'])])):
+          case = self.make_case(copy.deepcopy(spec), rng, n_members=2, n_chains=1)
+          t = twice if spec is outer else G.root_of([twice, [0, []]])
+          case['dnas'] = [t] + case['dnas'][:3]
+          yield case
     # permutation points (manyof(k) of k candidates, distinct, unsorted) whose candidates carry nested decisions
     for rep in range(1 if tier == 'quick' else 8):
       for k in (2, 3, 4):
@@ -454,7 +465,7 @@ class C12(Prop):
     return dict(case, chains=chains)
 
   # -- implementation ---------------------------------------------------------------------
-  def views(self, spec, spec_j, d):
+  def views(self, spec, spec_j, d, history=True):
     from pyglove.core import geno
     import pyglove.core.symbolic as pg_sym
     out, obs = {}, {}
@@ -532,6 +543,9 @@ class C12(Prop):
            obs.setdefault('lookup_raises', [])).append([str(dp.id), 'by ' + (
                'name %r' % key if key is dp.name else 'id' if isinstance(key, str) else 'decision point'), a])
     obs['lookups'] = look
+    if rebuilt is not None and history:
+      obs['view_history'] = self.view_history(spec, d, flat)
+      obs['crash_history'] = self.crash_history(spec, d, flat)
     # the ids every bound node advertises resolve on that node
     bad_ids, bad_sub = [], []
 
@@ -560,6 +574,79 @@ class C12(Prop):
     obs['subchoice_node_parent_id_unresolved'] = bad_sub[:5]
     obs['lookups_identity'] = lookups(d, spec)[1]
     return out, obs
+
+  def view_history(self, spec, d, flat):
+    """A history on ONE DNA object: every dictionary view, (the returned dicts and lists are scribbled on),
+    look-ups by name / id / decision point, every view again - each view must be the view of a DNA freshly
+    rebuilt from the raw numbers."""
+    from pyglove.core import geno
+    combos = [(kt, vt, mk, ia) for kt in KEY_TYPES + ['dna_spec'] for vt in VALUE_TYPES for mk in MULTI
+              for ia in (False, True)]
+
+    def view(x, c, scribble=False):
+      try:
+        v = x.to_dict(key_type=c[0], value_type=c[1], multi_choice_key=c[2], include_inactive_decisions=c[3])
+        out = canon_dict(v)
+        if scribble:
+          for val in v.values():
+            if isinstance(val, list):
+              val.append('scribble')
+          v['scribble'] = 0
+        return out
+      except CaseTimeout:
+        raise
+      except Exception as e:   # pylint: disable=broad-except
+        return 'error:' + type(e).__name__
+
+    h = H.mk_dna(H.tree_of(d))
+    h.use_spec(spec)
+    fresh = geno.DNA.from_numbers(flat, spec)
+    want = [view(fresh, c) for c in combos]
+    bad = []
+    first = [view(h, c, scribble=True) for c in combos]
+    lookups(h, spec)
+    second = [view(h, c, scribble=True) for c in combos]
+    lookups(h, spec)
+    third = [view(h, c) for c in combos]
+    for c, w, a, b2, c3 in zip(combos, want, first, second, third):
+      for label, got in (('first', a), ('after look-ups', b2), ('third', c3)):
+        if got != w:
+          bad.append([list(c), label, str(got)[:200], str(w)[:200]])
+          break
+    return bad[:3]
+
+  def crash_history(self, spec, d, flat):
+    """A crash-point history on ONE object: look-ups on the still unbound DNA (they raise), use_spec,
+    the same look-ups again - they must be those of a DNA freshly rebuilt from the raw numbers."""
+    from pyglove.core import geno
+    u = H.mk_dna(H.tree_of(d))
+    raised = []
+    for dp in spec.decision_points:
+      for key in ((dp.name,) if dp.name else ()) + (str(dp.id),):
+        try:
+          u[key]
+          raised.append(False)
+        except CaseTimeout:
+          raise
+        except Exception:   # pylint: disable=broad-except
+          raised.append(True)
+    for fn in (lambda: u.named_decisions, lambda: u.decision_ids, lambda: u.to_dict()):
+      try:
+        fn()
+      except CaseTimeout:
+        raise
+      except Exception:   # pylint: disable=broad-except
+        pass
+    try:
+      u.use_spec(spec)
+      la, ident = lookups(u, spec)
+      lb, _ = lookups(geno.DNA.from_numbers(flat, spec), spec)
+      return {'same': la == lb and ident, 'detail': None if la == lb else
+              [[str(x)[:80], str(y)[:80]] for x, y in zip(la, lb) if x != y][:2]}
+    except CaseTimeout:
+      raise
+    except Exception as e:   # pylint: disable=broad-except
+      return {'same': False, 'detail': 'error:' + type(e).__name__}
 
   def step_views(self, spec, d):
     from pyglove.core import geno
@@ -622,7 +709,7 @@ class C12(Prop):
     for t in case['dnas']:
       d = H.mk_dna(t)
       d.use_spec(spec)
-      o, ob = self.views(spec, spec_j, d)
+      o, ob = self.views(spec, spec_j, d, history=len(out['dnas']) < 3)
       out['dnas'].append(o)
       obs['dnas'].append(ob)
     for ch in case['chains']:
@@ -765,6 +852,16 @@ class C12(Prop):
         return {'signature': 'dna-spec-keys-differ', 'what': 'to_dict(key_type=dna_spec) differs from key_type=id'}
       if not ob.get('lookups_identity', True):
         return {'signature': 'lookup-foreign-node', 'what': 'a look-up on %s handed out a node of another DNA' % me}
+      if ob.get('view_history'):
+        return {'signature': 'view-differs-in-history',
+                'what': 'on one DNA object (views, look-ups, views again) to_dict%s differs from the view of a freshly '
+                        'rebuilt DNA (%s): %s vs %s; d = %s, spec %s' % (
+                            tuple(ob['view_history'][0][0]), ob['view_history'][0][1], ob['view_history'][0][2],
+                            ob['view_history'][0][3], me, G.spec_key(spec)[:400])}
+      if ob.get('crash_history') and not ob['crash_history']['same']:
+        return {'signature': 'lookup-stale-after-failed-lookup',
+                'what': 'look-ups on the unbound DNA (raise), use_spec, look-ups again: they differ from those of a '
+                        'rebuilt DNA: %s; d = %s, spec %s' % (ob['crash_history']['detail'], me, G.spec_key(spec)[:400])}
       if ob.get('lookup_raises'):
         return {'signature': 'lookup-raises',
                 'what': 'dna[key] raises for a decision point of the spec: %s (d = %s, spec %s)' % (
